@@ -9,6 +9,9 @@ pub mod c06;
 pub mod c07;
 pub mod c08;
 pub mod c09;
+pub mod c10;
+pub mod c11;
+pub mod c12;
 pub mod c18;
 
 use crate::engine::{Ctx, Verdict};
@@ -146,6 +149,41 @@ pub fn all() -> Vec<PropInfo> {
         rule: "(a) all strings over {A,C,G,T,N} up to a length bound crossed with a fixed list of small (w,m); (b) random (bytes, w, m) with m<=31, w<=m+60; \
                iterator output compared with the model's maximal runs; non-trivial = the model has >= 2 runs, or >= 1 run and a foreign byte; distinct by enumeration / hash of the case",
         assumptions: &["1 <= m <= w, m <= 31 by construction", "bytes 0x00-0x03 never generated"],
+        abort_is_violation: false,
+    },
+    PropInfo {
+        id: "C10",
+        run: c10::run,
+        replay: c10::replay,
+        shards: (8, 16),
+        watchdog: (900, 7200),
+        rule: "record lists (safe unique ids, 5% with a reused id; all containers; degenerate lengths around m and w) x m 1..=28 x (w = 0 or m < w <= m+40) x threads 1..=16 x schedule (free, perturbed, controlled over both worker loops); \
+               s2m lines compared as a multiset with the model's per-record runs, m2s compared per minimiser text with the model's (id,start,end) multisets, and m2s must be the inversion of the actual s2m; plus bounded-exhaustive schedule enumeration for small inputs; \
+               non-trivial = >= 3 records, a minimiser text shared by >= 2 records, threads >= 2; distinct by hash of the case",
+        assumptions: &["w = 0 means one window of max(record length, m) bases: a record shorter than m or holding a foreign byte has no run", "ids are restricted so that Rust's Debug rendering in m2s is the identity"],
+        abort_is_violation: false,
+    },
+    PropInfo {
+        id: "C11",
+        run: c11::run,
+        replay: c11::replay,
+        shards: (8, 16),
+        watchdog: (900, 7200),
+        rule: "(1) nucleotide strings (ACGTU either case, low-complexity included) x S in 1..2^20 through the per-sequence routine: every point equals the exact dyadic model (bit-exact while the exact value fits 53 bits, within S*2^-48 beyond), lies in the sub-square fixed by its last min(i,20) bases, and is unchanged when a suffix is appended; \
+               (2) strings with one inserted foreign byte must be refused (Err or panic), never Ok; (3) files of nucleotide records x containers x threads x batch limit {1 byte, 3 records, half, 4 GiB}, optionally with one poisoned record: rows per record in order, and on refusal only correct complete rows of records before the offending one; \
+               non-trivial = length >= 5 with >= 3 distinct bases (direct) / >= 2 records one of them >= 5 bases (files); distinct by hash of the case",
+        assumptions: &["a panic counts as 'rejected with an error'", "S >= 1; exactness rule: exact iff the exact value needs <= 53 significant bits"],
+        abort_is_violation: false,
+    },
+    PropInfo {
+        id: "C12",
+        run: c12::run,
+        replay: c12::replay,
+        shards: (8, 16),
+        watchdog: (900, 7200),
+        rule: "records (foreign bytes allowed, degenerate lengths) x containers x k 1..=7 x S x normalised/raw x threads x batch limit: row i has one (x,y,f) per canonical k-mer in rank order, (x,y) = exact chaos-game end point of the k-mer text (identical in every row), f within 1e-9 of the model oligo value and equal (5e-7 / exact) to what comp oligo writes for the same file; \
+               non-trivial = >= 2 records and some record with >= 2 non-zero columns; distinct by hash of the case",
+        assumptions: &["k-mer end points are exactly representable for k <= 7 and S <= 2^20 (asserted)"],
         abort_is_violation: false,
     },
     PropInfo {
